@@ -104,6 +104,15 @@ CLAIMED = {
         "that all renderers of the client method name agree. The executed word x position cross product is not run.",
         "Trusted: proto-plus attribute fallback `x` -> `x_` for non-keyword reserved names.",
         "DESIGN.md 4/C12"),
+    "C14": (
+        "f-string decomposition + regex literals matched against sample skeleton lines + Jinja-AST shape rules + ast patterns",
+        "Decides the region-tag format and the enumeration of specs, that on every auto-generated calling form x transport profile the "
+        "sample skeleton parses, uses async syntax exactly for the asyncio client and contains every marker line the snippet index "
+        "reads, in order, inside the START/END tags; that both clients embed exactly full_snippet of the matching sample kind; that the "
+        "metadata filler uses the accessors the templates print; that the import line is guarded for an empty namespace; and the "
+        "default request shape (one member per oneof + required non-oneof fields). Running a sample is not claimed.",
+        "Covers auto-generated samples only (CallingForm.method_default forms).",
+        "DESIGN.md 4/C14"),
     "C15": (
         "ast pattern + def-use rules on API.gapic_metadata / legacy flattening; renderer agreement with client skeletons; fix-up table slots",
         "Decides the transport/class table, that every service x client x rpc is listed once (sorted, unfiltered), that the library "
